@@ -39,7 +39,8 @@ def run(F, R, tier):
         "only on Success. Linux cfg only; byte identity of fs::copy, systemctl behaviour and arbitrary command sequences are not decided.")
     for rid, txt in (("C17.R1", "path tables of backup / copy / delete agree"), ("C17.R2", "ordering in main and setup_service"),
                      ("C17.R3", "effect inventory: targets only under the system locations, the backup folder and the tool's log"),
-                     ("C17.R4", "the extension drives backup -> install, restore on Error, purge on Success")):
+                     ("C17.R4", "the extension drives backup -> install, restore on Error, purge on Success"),
+                     ("C17.R5", "each copy/delete of the tables is attempted on every path of the table functions and the primitives")):
         R.rule(rid, txt)
     R.not_decided += ["byte identity of fs::copy", "what systemctl does", "behaviour for arbitrary command sequences beyond the per-command tables",
                       "the Windows copy routines (cfg(windows), not compiled here)"]
@@ -83,6 +84,62 @@ def run(F, R, tier):
             exp = {(root + "/azure-proxy-agent", EXE), (root + "/proxy-agent.json", CONFIG), (root + "/ebpf_cgroup.o", EBPF)}
             R.check(cp == exp, "C17.R1", "C17.R1:%s:table" % fn["id"], "%s:%s" % (fn["file"], fn["line"]),
                     "%s copies from %s onto the three system paths" % (fname, root), "%s copies %s; expected %s" % (fname, sorted(cp), sorted(exp)))
+
+    # ------------------------------------------------------------------ R5 the table is a must-set, not a may-set
+    # every call site that leads to a copy / remove_file of the tables above lies on every entry->return path of its function
+    # (the copy/delete primitives never skip the attempt; accepted skip idiom: the *source* does not exist)
+    from lib import paths as P
+    MUT = {"std::fs::copy", "std::fs::remove_file"}
+    memo = {}
+
+    def effectful(fid, seen=()):
+        if fid in memo:
+            return memo[fid]
+        if fid in seen or fid not in F.fns or not fid.startswith(ST) or fid.startswith(ST + "logger::"):
+            return False
+        Bf = mir.Body(F.fns[fid], F)
+        res = any(q.base_name(r or w or "") in MUT or effectful(r or w, seen + (fid,)) for bi, w, r, t in Bf.calls if w != mir.POLL)
+        memo[fid] = res
+        return res
+    n_sites = 0
+    work = [ST + "linux::backup_files", ST + "linux::copy_files", ST + "linux::delete_files"]
+    done = set()
+    while work:
+        fid = work.pop()
+        if fid in done or fid not in F.fns:
+            continue
+        done.add(fid)
+        Bf = mir.Body(F.fns[fid], F)
+        R.touched(fid)
+        sites = []
+        for bi, w, r, t in Bf.calls:
+            if w == mir.POLL:
+                continue
+            nm = q.base_name(r or w or "")
+            if nm in MUT or effectful(r or w):
+                sites.append((bi, nm))
+                if nm not in MUT:
+                    work.append(r or w)
+        try:
+            allp = P.enumerate_paths(Bf, allow_loops=True)
+        except P.TooManyPaths:
+            R.fail("C17.R5", "C17.R5:%s:too-many-paths" % fid, "-", "cannot enumerate the paths of %s" % fid)
+            continue
+        for k, (bi, nm) in enumerate(sites):
+            n_sites += 1
+            bad = []
+            for pth in allp:
+                if any(b == bi for b, _ in pth):
+                    continue
+                atoms = P.path_atoms(Bf, F, pth)
+                src_missing = any(v is False and d.startswith("call ") and d.split("(")[0].endswith(("::exists", "::is_file", "::try_exists"))
+                                  and "param:src" in d and "param:dst" not in d for d, v in atoms)
+                if not src_missing:
+                    bad.append(atoms)
+            R.check(not bad, "C17.R5", "C17.R5:%s:must:%s#%d" % (fid, nm.rsplit("::", 1)[-1], k), q.where(Bf, bi),
+                    "%s: every path attempts %s" % (fid.replace(ST, ""), nm),
+                    "%s can return without attempting %s, e.g. under %s" % (fid.replace(ST, ""), nm, bad[0] if bad else ""))
+    R.floor("C17.R5", n_sites, 12, "call sites leading to a copy/delete of the tables, each a must-pass of its function")
 
     # ------------------------------------------------------------------ R2 ordering in main
     B = mir.Body(main, F)
